@@ -61,4 +61,8 @@ void rd_block_free(rd_block_t *b);
 int rd_parse(const uint8_t *data, size_t len, int64_t start, rd_file_t *f);
 void rd_free(rd_file_t *f);
 
+/* locate the index block without trusting the trailer (C10 must be able to contradict the trailer's index offset) */
+extern int64_t rd_index_off_override;
+int64_t rd_find_index_by_walking(const uint8_t *data, size_t len, uint64_t start, int version);
+
 #endif
